@@ -12,8 +12,8 @@ H.append({"name":"H_heal","tiers":Q,"scale":"b2","preemptions":1,"bounds":"the s
   "param_sets":[{"nf":2,"na":0,"damage":d,"policy":p} for d in (0,2,4,6,8,10,12,13) for p in (0,1)]})
 H.append({"name":"H_heal","tiers":Q,"scale":"b2","preemptions":1,"novalidate":True,"bounds":"a directory replaced by a symlink to a directory holding valid files (damage 5), three default scheduling policies, at most 1 preemption (natively schedule-dependent: excluded from translator validation)",
   "param_sets":[{"nf":2,"na":0,"damage":5,"policy":p} for p in (0,1,2)]})
-H.append({"name":"H_heal","tiers":T,"scale":"b2","preemptions":2,"bounds":"all damage shapes, nf in {0,3,5}, at most 2 preemptions","max_seconds":1700,
-  "param_sets":[{"nf":n,"na":0,"damage":d,"policy":p} for n in (0,3) for d in dmg for p in (0,1)]+[{"nf":3,"na":a,"damage":1,"policy":0} for a in range(0,7)]})
+H.append({"name":"H_heal","tiers":T,"scale":"b2","preemptions":1,"bounds":"every damage shape, nf in {2,3}, three default policies, at most 1 preemption (2 preemptions exceed any per-instance budget here: stated, not run)","max_seconds":900,
+  "param_sets":[{"nf":n,"na":0,"damage":d,"policy":p} for n in (2,3) for d in dmg+[5] for p in (0,1,2)]+[{"nf":3,"na":a,"damage":1,"policy":p} for a in range(0,7) for p in (0,1)]})
 json.dump({"property":"C06","package":"c06","models":["modelzip"],"scale":scale,"harnesses":H,
  "stubs":["os -> memfs","arkive/zip -> lossless container of (header, bytes) entries; zip/deflate formats not modelled","eos.Open -> local files only","md5/protobuf models","cooperative preemption-bounded scheduler"],
  "outside":["remote archives, real zip decoding","LockMap users","schedules beyond the preemption bound"]},open("config.json","w"),indent=1)
